@@ -27,7 +27,9 @@ ASSUMPTIONS = [
     "command payload schemas inside the NCP model are bellows' own tables",
 ]
 PROBES = ["feed.V", "feed.S", "feed.T", "feed.E", "feed.T2", "feed.E2", "raised", "raised_again_on_6th", "read_and_clear_used", "loop_connection_lost", "loop_survived_4_failures",
-          "v4_nop", "success_after_4_failures"]
+          "v4_nop", "success_after_4_failures", "noise.incoming_message", "noise.command_ok", "noise.join", "noise.stack_status", "noise.route_error"]
+
+from ..ncpmodel import St as St_  # noqa: E402
 
 MAXF = 4
 PERIOD = 180
@@ -45,6 +47,11 @@ def plan(tier):
         for pre in itertools.product("STX", repeat=2):
             if "X" in pre:
                 sweeps.append(("enum", {"V": V, "prefix": "".join(pre), "k": k, "alpha": "STX", "sched": False}))
+    # the same with other NCP / host activity between the feeds (incoming messages, joins, unsolicited confirmations, an ordinary command that
+    # succeeds): none of it is a keep-alive outcome, the count must not move
+    for V in (4, 8, 14):
+        for pre in itertools.product("TE", repeat=2):
+            sweeps.append(("enum", {"V": V, "prefix": "".join(pre), "k": k, "alpha": "STE", "noise": True, "sched": False}))
     kb = 5 if tier == "quick" else 7
     for seq in itertools.product("STEV", repeat=kb):
         if seq[0] != "S":  # sequences starting with S are covered by a shorter one shifted by a feed
@@ -57,7 +64,7 @@ def plan(tier):
     return {
         "sweeps": sweeps,
         "exhaustive": f"all outcome sequences over {{success, no reply, invalidCommand, success with free-buffer read refused}} of length <= {k} for a v4 and a v8 NCP through watchdog_feed(); scripted runs of the real watchdog loop on v4/5/8/13/14",
-        "random": [("long", {}, 1), ("loop", {}, 1), ("soak", {}, 2)],
+        "random": [("long", {}, 1), ("noisy", {}, 1), ("loop", {}, 1), ("soak", {}, 2)],
         "runs": 240 if tier == "quick" else None,
         "budget_s": 60 if tier == "quick" else 900,
         "batch": 4,
@@ -159,13 +166,46 @@ def run(scenario, params, tape, detail=False):
             probe("read_and_clear_used")
         if cmd == "nop":
             probe("v4_nop")
+        if noise[0] is not None:
+            await between_feeds(app)
         return raised
+
+    noise = [None]
+
+    async def between_feeds(app):
+        """Activity that is not a keep-alive: must leave the failure count alone."""
+        from .c13 import enc_aps, enc_incoming, enc_tcjoin
+
+        noise[0] += 1
+        what = noise[0] % 5
+        seq = ncp.last_rsp_seq
+        if what == 0:
+            probe("noise.incoming_message")
+            ncp.emit(enc_incoming(ncp.V, seq, (0, 2, 4)[noise[0] % 3], enc_aps(0x0104, 6, 1, 1, 0x0140, 0x1234, noise[0] & 0xFF), 200, -40, 0x4321, 0xFF, 0xFF, b"\x01\x02"), 0.0, "cb")
+        elif what == 1:
+            probe("noise.command_ok")
+            old = cur["outcome"]
+            cur["outcome"] = "S"
+            await app._ezsp.getNodeId()
+            cur["outcome"] = old
+        elif what == 2:
+            probe("noise.join")
+            ncp.emit(enc_tcjoin(ncp.V, seq, 0x2345, bytes([9, 8, 7, 6, 5, 4, 3, noise[0] & 0xFF]), 1, 0, 0x0000), 0.0, "cb")
+        elif what == 3:
+            probe("noise.stack_status")
+            ncp.callback("stackStatusHandler", (St_("NETWORK_UP"),))
+        else:
+            probe("noise.route_error")
+            ncp.callback("incomingRouteErrorHandler", (St_("DELIVERY_FAILED"), 0x3456))
+        await asyncio.sleep(0.05)
 
     async def main():
         app = await rig.start_app()
         # zigpy's start-up path has already fed the watchdog? (only in zigpy's own startup(), which is not used here)
         ref["fails"] = app._watchdog_failures
         ref["count"] = app._watchdog_feed_counter
+        if params.get("noise") or scenario == "noisy":
+            noise[0] = 0
         if scenario == "enum":
             k, prefix = params["k"], params["prefix"]
             for n in range(len(prefix), k + 1):
@@ -196,8 +236,8 @@ def run(scenario, params, tape, detail=False):
             sigs.add(hashlib.blake2b(repr((V, "boundary", seq)).encode(), digest_size=8).digest())
             if not samples:
                 samples.append({"V": V, "mode": "watchdog_feed around feed #180", "sequence": seq})
-        elif scenario == "long":
-            n = 400
+        elif scenario in ("long", "noisy"):
+            n = 400 if scenario == "long" else 150
             seq = []
             run_len = 0
             for i in range(n):
